@@ -133,6 +133,14 @@ def prog_event(tid, o, i, fl, placement):
             codes = {fn.__code__, g['relay'].__code__}
             fns.add(fn, 'f1'); fns.add(g['inner'], 'f2')
             declared, agree = outcome_full(declared_thunk(fn, g['inner'], fl), fns), 'ps'
+        elif base in ('auto_first_unresolvable', 'auto_first_incompatible'):
+            fl = dict(fl, partial=False)
+            src = progs.render_forwarding(o, i, fl, base)
+            progs.drop_cache(fname)
+            g, fname = progs.compile_module(src)
+            fn, plain_target = g['w'], g['w']
+            codes = {fn.__code__}
+            nomodel = True
         elif base == 'auto_class_call':
             fn, plain_target = g['K'], g['K']
             codes = {g['K'].__call__.__code__, g['K'].__init__.__code__}
